@@ -806,6 +806,19 @@ func (fc *FnCtx) evalCall(e *Expr, env *Env) Val {
 		hi := add(sx("s-off", a[0].T), a[2].T)
 		return boolVal(fmt.Sprintf("(forall ((%s Int) (%s Int)) (! (=> (not (and (= %s (s-obj %s)) (<= %s %s) (< %s %s))) (= (select (select %s %s) %s) (select (select %s %s) %s))) :pattern ((select (select %s %s) %s))))",
 			o, k, o, a[0].T, lo, k, k, hi, mem, o, k, mem0, o, k, mem, o, k))
+	case "a32":
+		// a32(s, i): little-endian 32-bit value at index i of a byte array value
+		a := args()
+		var parts []string
+		for k := 0; k < 4; k++ {
+			b := sel(a[0].T, add(a[1].T, num(int64(k))))
+			if k == 0 {
+				parts = append(parts, b)
+			} else {
+				parts = append(parts, sx("*", bignum(pow2(uint(8*k))), b))
+			}
+		}
+		return mathInt(sx("+", parts...))
 	case "elemsof":
 		// elemsof(s): the array of elements of the object underlying slice s (string ids / ints / bytes)
 		a := args()[0]
